@@ -5,5 +5,3 @@ package resmgr
 import "os"
 
 func removeAll(dir string) error { return os.RemoveAll(dir) }
-
-func traceBalloons(e *executor) {}
